@@ -41,19 +41,21 @@ func main() {
 	dumpInline := flag.String("inline", "", "debug: comma separated callee names to inline")
 	dumpSSA := flag.String("ssa", "", "debug: dump SSA of a function")
 	list := flag.Bool("list", false, "list functions")
+	dumpLocks := flag.String("locks", "", "debug: dump lock states of a function")
 	arch := flag.String("arch", "", "override configs (comma separated GOARCH)")
 	flag.Parse()
 
 	abs, _ := filepath.Abs(*repo)
 	*repo = abs
 
-	if *list || *dumpPaths != "" || *dumpSSA != "" {
+	if *list || *dumpPaths != "" || *dumpSSA != "" || *dumpLocks != "" {
 		p, err := loadProgram(*repo, "amd64")
 		if err != nil {
 			fmt.Println(err)
 			os.Exit(2)
 		}
 		if *list {
+			debugInvokes(p)
 			for _, f := range p.Funcs {
 				fmt.Println(p.FuncName(f), p.FuncPos(f))
 			}
@@ -66,6 +68,9 @@ func main() {
 		}
 		if *dumpPaths != "" {
 			debugPaths(p, *dumpPaths, *dumpInline)
+		}
+		if *dumpLocks != "" {
+			debugLocks(p, *dumpLocks)
 		}
 		return
 	}
@@ -196,4 +201,34 @@ func debugPaths(p *Program, name, inline string) {
 		}
 	}
 	fmt.Println(len(paths), "paths")
+}
+
+func debugLocks(p *Program, name string) {
+	env := getLockEnv(p)
+	fn := p.Func(name)
+	if fn == nil {
+		return
+	}
+	fmt.Println(name, "roots:", env.la.roots[fn], "entry:", env.la.EntryNames(fn), "acq:", env.la.Names(env.la.acq[fn]), "rel:", env.la.Names(env.la.rel[fn]))
+	for _, cs := range env.la.callersOf[fn] {
+		fmt.Println("  caller", p.FuncName(cs.in), p.InstrPos(cs.instr), "deferred", cs.deferred, "held", env.la.Names(env.la.HeldAt(cs.instr)&^topIfTop(env.la.HeldAt(cs.instr))))
+	}
+	for _, b := range fn.Blocks {
+		for _, in := range b.Instrs {
+			h := env.la.HeldAt(in)
+			s := "⊤"
+			if h != topLocks {
+				s = strings.Join(env.la.Names(h), ",")
+			}
+			fmt.Printf("  b%d {%s} %s\n", b.Index, s, in.String())
+		}
+	}
+}
+
+func debugInvokes(p *Program) {
+	for _, cs := range p.CallSites() {
+		if cs.Instr.Common().IsInvoke() || cs.Name == "dyn" {
+			fmt.Printf("%-32s %-45s %s  recv=%s\n", p.FuncName(cs.Fn), cs.Name, p.InstrPos(cs.Instr), cs.Instr.Common().Value.String())
+		}
+	}
 }
